@@ -147,6 +147,8 @@ def run(ctx):
             outcome = "MustForce"
         except RepairRequiresWritecapError:
             outcome = "RequiresWritecap"
+        except TypeError as e:          # the decision function no longer has the shape the model was written for
+            outcome = "uncallable: %s" % e
         case2 = dict(case, force=force, writekey=wk is not None)
         newer = sm.unrecoverable_newer_versions()
         merge = sm.needs_merge()
@@ -195,11 +197,12 @@ def grid_cases(ctx):
         scenario = r.choice(["intact", "delete", "delete", "stale", "newer-unrecoverable", "newer-unrecoverable", "corrupt", "far-stale", "far-stale",
                              "competing", "competing"])
         # the refusal rules are exercised in every run, through both entry points
-        FORCED = [("newer-unrecoverable", "check_and_repair"), ("competing", "check_and_repair"), ("competing", "repair"), ("newer-unrecoverable", "repair")]
+        FORCED = [("newer-unrecoverable", "check_and_repair"), ("competing", "check_and_repair"), ("competing", "repair"), ("newer-unrecoverable", "repair"),
+                  ("late-newer-unrecoverable", "repair"), ("late-competing", "repair")]
         forced_via = None
         if i < len(FORCED):
             scenario, forced_via = FORCED[i]
-        if scenario == "competing" and N < 2 * k:
+        if scenario.endswith("competing") and N < 2 * k:
             k, N = r.choice([(2, 4), (2, 5), (1, 3), (3, 6)])
             S = r.choice([N, N + 1])
         if scenario == "far-stale":
@@ -219,62 +222,70 @@ def grid_cases(ctx):
             newest = b"version-one"
             corrupted = set()
             content_by_ver = {share_version(g, g.find_shares(node.get_uri())[0]): b"version-one"}
-            if scenario == "delete":
-                shs = g.find_shares(node.get_uri())
-                r.shuffle(shs)
-                for sh in shs[:r.randrange(1, len(shs))]:
-                    g.delete_share(sh)
-            elif scenario in ("stale", "newer-unrecoverable", "far-stale"):
-                g.run(g.mutable_overwrite(node, b"version-two!"))
-                newest = b"version-two!"
-                cur = {(sh.server, sh.shnum): sh for sh in g.find_shares(node.get_uri())}
-                content_by_ver[share_version(g, next(iter(cur.values())))] = b"version-two!"
-                keys = sorted(kk for kk in snap1 if kk in cur)
-                r.shuffle(keys)
-                if scenario == "far-stale":
-                    order = g.storage_broker_order(node.get_uri())
-                    near = set(order[:2 * k])                  # what MODE_READ asks before it may stop
-                    chosen = [kk for kk in keys if kk[0] in near]
-                    if len(keys) - len(chosen) < k:            # keep the newest version recoverable
-                        chosen = chosen[:len(keys) - k]
-                elif scenario == "stale":
-                    chosen = keys[:r.randrange(1, len(keys))]
-                else:
-                    chosen = keys[:len(keys) - (k - 1)] if k > 1 else keys[:len(keys) - 1]   # leave k-1 (>=1) shares of v2... at least one
-                    if len(chosen) == len(keys):
-                        chosen = keys[:-1]
-                for kk in chosen:
-                    g.write_share(cur[kk], snap1[kk])
-            elif scenario == "competing":
-                # two different versions with the SAME sequence number, both recoverable: publish 2A, roll every share back
-                # to version 1, publish 2B, then put 2A back on some of the shares
-                g.run(g.mutable_overwrite(node, b"version-twoA"))
-                curA = {(sh.server, sh.shnum): sh for sh in g.find_shares(node.get_uri())}
-                snapA = {kk: g.read_share(sh) for kk, sh in curA.items()}
-                content_by_ver[share_version(g, next(iter(curA.values())))] = b"version-twoA"
-                for kk, sh in curA.items():
-                    if kk in snap1:
-                        g.write_share(sh, snap1[kk])
-                    else:
+            state = {"newest": b"version-one"}
+
+            def damage(sc):
+                if sc == "delete":
+                    shs = g.find_shares(node.get_uri())
+                    r.shuffle(shs)
+                    for sh in shs[:r.randrange(1, len(shs))]:
                         g.delete_share(sh)
-                g.run(g.mutable_overwrite(node, b"version-twoB"))
-                cur = {(sh.server, sh.shnum): sh for sh in g.find_shares(node.get_uri())}
-                content_by_ver[share_version(g, next(iter(cur.values())))] = b"version-twoB"
-                newest = None
-                keys = sorted(kk for kk in cur if kk in snapA)
-                r.shuffle(keys)
-                nA = r.randrange(k, max(k + 1, len(keys) - k + 1))
-                for kk in keys[:nA]:
-                    g.write_share(cur[kk], snapA[kk])
-            elif scenario == "corrupt":
-                shs = g.find_shares(node.get_uri())
-                sh = shs[r.randrange(len(shs))]
-                data = g.read_share(sh)
-                # SDMF offsets table follows the 59-byte signed prefix: >LLLLQQ ; 4th entry = share_data
-                offs = struct.unpack(">LLLLQQ", data[OFF + 59:OFF + 59 + 32])
-                pos = OFF + offs[3]
-                g.write_share(sh, data[:pos] + bytes([data[pos] ^ 1]) + data[pos + 1:])
-                corrupted.add((sh.server, sh.shnum))
+                elif sc in ("stale", "newer-unrecoverable", "far-stale"):
+                    g.run(g.mutable_overwrite(node, b"version-two!"))
+                    state["newest"] = b"version-two!"
+                    cur = {(sh.server, sh.shnum): sh for sh in g.find_shares(node.get_uri())}
+                    content_by_ver[share_version(g, next(iter(cur.values())))] = b"version-two!"
+                    keys = sorted(kk for kk in snap1 if kk in cur)
+                    r.shuffle(keys)
+                    if sc == "far-stale":
+                        order = g.storage_broker_order(node.get_uri())
+                        near = set(order[:2 * k])                  # what MODE_READ asks before it may stop
+                        chosen = [kk for kk in keys if kk[0] in near]
+                        if len(keys) - len(chosen) < k:            # keep the newest version recoverable
+                            chosen = chosen[:len(keys) - k]
+                    elif sc == "stale":
+                        chosen = keys[:r.randrange(1, len(keys))]
+                    else:
+                        chosen = keys[:len(keys) - (k - 1)] if k > 1 else keys[:len(keys) - 1]   # leave k-1 (>=1) shares of v2... at least one
+                        if len(chosen) == len(keys):
+                            chosen = keys[:-1]
+                    for kk in chosen:
+                        g.write_share(cur[kk], snap1[kk])
+                elif sc == "competing":
+                    # two different versions with the SAME sequence number, both recoverable: publish 2A, roll every share back
+                    # to version 1, publish 2B, then put 2A back on some of the shares
+                    g.run(g.mutable_overwrite(node, b"version-twoA"))
+                    curA = {(sh.server, sh.shnum): sh for sh in g.find_shares(node.get_uri())}
+                    snapA = {kk: g.read_share(sh) for kk, sh in curA.items()}
+                    content_by_ver[share_version(g, next(iter(curA.values())))] = b"version-twoA"
+                    for kk, sh in curA.items():
+                        if kk in snap1:
+                            g.write_share(sh, snap1[kk])
+                        else:
+                            g.delete_share(sh)
+                    g.run(g.mutable_overwrite(node, b"version-twoB"))
+                    cur = {(sh.server, sh.shnum): sh for sh in g.find_shares(node.get_uri())}
+                    content_by_ver[share_version(g, next(iter(cur.values())))] = b"version-twoB"
+                    state["newest"] = None
+                    keys = sorted(kk for kk in cur if kk in snapA)
+                    r.shuffle(keys)
+                    nA = r.randrange(k, max(k + 1, len(keys) - k + 1))
+                    for kk in keys[:nA]:
+                        g.write_share(cur[kk], snapA[kk])
+                elif sc == "corrupt":
+                    shs = g.find_shares(node.get_uri())
+                    sh = shs[r.randrange(len(shs))]
+                    data = g.read_share(sh)
+                    # SDMF offsets table follows the 59-byte signed prefix: >LLLLQQ ; 4th entry = share_data
+                    offs = struct.unpack(">LLLLQQ", data[OFF + 59:OFF + 59 + 32])
+                    pos = OFF + offs[3]
+                    g.write_share(sh, data[:pos] + bytes([data[pos] ^ 1]) + data[pos + 1:])
+                    corrupted.add((sh.server, sh.shnum))
+
+
+            late = scenario.startswith("late-")
+            damage("intact" if late else scenario)
+            newest = state["newest"]
 
             def disk_state(skip_corrupted=True):
                 byver = {}
@@ -295,6 +306,13 @@ def grid_cases(ctx):
             if cr.is_healthy() != want_healthy:
                 ctx.oracle_fail("grid-health-differs", "check (verify=%s) says healthy=%s; shares on disk give %s (%r)" % (
                     verify, cr.is_healthy(), want_healthy, {str(v[0]): sorted(s) for v, s in byver.items()}), case=case, expected=want_healthy, observed=cr.is_healthy())
+            if late:
+                # the grid changes BETWEEN the check and the repair that is handed its results: the refusal rules are about the
+                # grid as the repairer finds it, not as the checker saw it
+                damage(scenario[len("late-"):])
+                newest = state["newest"]
+                byver = disk_state()
+                recov = sorted(v for v, shs in byver.items() if len(shs) >= k)
             # ---- repair ----
             force = r.random() < 0.4 and forced_via is None
             case["force"] = force
